@@ -51,6 +51,8 @@ def run(ck):
            expect_violation="Refines", env={"VERIF_CASES": ck.path("unused")})
     if not thorough:
         ck.tlc("cursor", "CursorImpl", "MC_design.cfg", label="I=>P at MaxLen=4 (no emission)", env={"VERIF_CASES": ck.path("unused")})
+    # unbounded in the length of the data: every action of Cursor.tla keeps the cursor inside the data (TLAPS)
+    ck.tlaps("cursor", "CursorProof", deps=("Cursor",))
     s1 = ck.drive("cursor", "replay", "-cases", cases, "-out", ck.path("replay.ndjson"), "-sample", 200 if thorough else 100)
     if s1["cases"] == 0:
         ck.fatal("generator produced no cases")
@@ -73,8 +75,9 @@ def run(ck):
     for f in ck.validate("buffer", "RWTrace", "RWTrace.cfg", ck.path("rw.ndjson")):
         ev = next((x for x in f["trace"] if x["i"] == f["i"]), {})
         sig = "rw/%s/%s/%s" % (f["trace"][0].get("kind"), ev.get("ev"), "panic" if ev.get("out") == "panic" else "wrong-result")
-        ck.violation(sig, "buffer.%s: event %s rejected by RW.tla" % (f["trace"][0].get("kind"), json.dumps(ev)),
-                     {"suite": "rw", "trace": f["trace"][: f["i"] + 1], "rejected_event_index": f["i"]})
+        # buffer.Reader/Writer are outside C12's statement: a disagreement is reported, but is not a violation of C12
+        ck.beyond(sig, "buffer.%s: event %s rejected by RW.tla" % (f["trace"][0].get("kind"), json.dumps(ev)),
+                  {"suite": "rw", "trace": f["trace"][: f["i"] + 1], "rejected_event_index": f["i"]})
     ck.assumptions += ["byte alphabet of the exhaustive part is 7 representative values (nul, ascii, 2/3/4-byte leads, continuation, 0xFF)",
                        "slice offsets are measured against the caller's array where the harness owns it, else against Bytes()"]
 
